@@ -670,17 +670,20 @@ def connect_coding_graph(observed_length, vertices, threshold, verbose=False):
 
         if threshold == 1:
             while True:
-                vertices = obtain_vertices(accessor)
-                graph = DiGraph()
-                for former_index, latter_indices in enumerate(accessor):
+                # collect the vertices that cannot reach any vertex containing information (out-degree > 1).
+                out_degrees = sum(accessor >= 0, axis=1)
+                reachable = out_degrees > 1
+                latter_indices = where(reachable)[0].tolist()
+                while len(latter_indices) > 0:
+                    former_indices = []
                     for latter_index in latter_indices:
-                        if latter_index >= 0:
-                            graph.add_edge(u_of_edge=former_index, v_of_edge=latter_index)
-                useless_vertices, cycle = [], find_cycle(graph)
-                for former_index, latter_index in cycle:
-                    if len(where(accessor[former_index] >= 0)[0]) == 1:
-                        useless_vertices.append(former_index)
-                if len(useless_vertices) == len(cycle):
+                        for former_index in obtain_formers(latter_index, observed_length):
+                            if accessor[former_index, latter_index % 4] >= 0 and not reachable[former_index]:
+                                reachable[former_index] = True
+                                former_indices.append(former_index)
+                    latter_indices = former_indices
+                useless_vertices = where((out_degrees > 0) & (~reachable))[0]
+                if len(useless_vertices) > 0:
                     for useless_vertex in useless_vertices:
                         accessor[useless_vertex] = -1
                         pairs = [(i, useless_vertex) for i in obtain_formers(useless_vertex, observed_length)]
@@ -695,6 +698,10 @@ def connect_coding_graph(observed_length, vertices, threshold, verbose=False):
                             pairs = new_pairs
                 else:
                     break
+
+            vertices = obtain_vertices(accessor)
+            if len(vertices) == 0:
+                raise ValueError("No coding graph is created!")
 
         if verbose:
             print("The coding graph is created.")
